@@ -34,6 +34,10 @@ def run(ctx):
     ctx.assume("A-REAL: floats as reals", "composition / uniformly shuffled scan of pi-invariant kernels is pi-invariant (standard)")
     ctx.extra["explanation"] = ("Deductive: G1-G3 obligations on the real DataPointSampler and PruneRegraphSampler code for any number of clones, with and without the "
                                 "outlier option (block closure checked by running the real move again from its own result). Bounded: exact kernels on n<=4 points.")
+    if ctx.tier == "thorough":
+        from vcheck import lean as L
+
+        L.check_file(ctx, "MGibbs.lean", "C04")
     from bounded import kernels as BK
 
     res = common.run_parallel(BK.aux_task, BK.aux_configs(ctx.tier, ctx.seed))
